@@ -71,11 +71,10 @@ func (b *faultBackend) do(kind string, in *pokerface.GameState, f func() (*poker
 	b.callsInCall++
 	call := &beCall{ord: b.ord, kind: kind, atMs: c.NowMs(), engine: engineKinds[kind]}
 	b.calls = append(b.calls, call)
+	stale := false
 	if kind != "CreateGame" {
 		c.Judged("C13.chain_link")
-		if got := normState(in); got != b.lastOK {
-			c.Viol("C13", "C13.chain_broken", map[string]any{"kind": kind, "after": b.lastKind}, "backend call #%d %s received a state that is not the one returned by the last successful call (%s)", b.ord, kind, b.lastKind)
-		}
+		stale = normState(in) != b.lastOK
 	}
 	fail := false
 	if b.forceFail > 0 {
@@ -107,9 +106,23 @@ func (b *faultBackend) do(kind string, in *pokerface.GameState, f func() (*poker
 		return nil, errInjected
 	}
 	out, err := f()
+	if b.w.c.Job.DumpLog {
+		ev := ""
+		if out != nil {
+			ev = out.Status.CurrentEvent + "/" + out.Status.Round
+		}
+		c.Logf("BACKEND #%d %s -> %s %v (task %s)", b.ord, kind, ev, err, simrt.CurName())
+	}
 	if err == nil {
+		if stale {
+			// a step was applied to a state that is not the latest successfully produced one: the
+			// hand forks and one of the branches will be lost
+			c.Viol("C13", "C13.chain_broken", map[string]any{"kind": kind, "after": b.lastKind}, "backend call #%d %s succeeded on a state that is not the one returned by the last successful call (%s)", b.ord, kind, b.lastKind)
+		}
 		b.lastOK = normState(out)
 		b.lastKind = kind
+	} else if stale {
+		c.Probe("stale_state_step_refused_by_rules")
 	}
 	return out, err
 }
